@@ -261,6 +261,7 @@ def c16(ck):
 def c09(ck):
     ck.rule.append("random templates to depth 4 x random assignments x random splits into 1..4 fills; about one case in five carries an "
                    "out-of-domain value; non-trivial = template has a variable that sigma mentions; distinct by (template, sigma)")
+    ck.model("MCFill", "MCFill", "MCFill.cfg", timeout=900)
     ck.trace("fill", "fill", ["-n", q(ck, 1500, 12000)], "TraceItems", "TraceItems.cfg", ["InvC09"],
              nontrivial=lambda e: len(e.get("tmpl", {}).get("vars", [])) > 0,
              key=lambda e: json.dumps([e.get("tmpl", {}).get("abs"), e.get("sigma")], sort_keys=True))
@@ -313,6 +314,24 @@ def c10(ck):
 # ---------------------------------------------------------------------------------------------- C11 / C18
 def _history_checks(ck, inv):
     ck.model("Message", "Message", "Message_%s.cfg" % ck.tier, timeout=q(ck, 300, 3000))
+    # TLC -> Go: behaviours of the pool model executed through the real API
+    r = ck.tlc("Message", "Message_sim.cfg", workers=1, simulate="num=%d" % q(ck, 60, 600), extra=["-depth", "7", "-seed", str(ck.seed)])
+    if r.error and not r.cases:
+        raise ToolError("Message simulation failed: %s" % r.error)
+    seen, behaviours = set(), []
+    for b in r.cases:
+        k = json.dumps(b, sort_keys=True)
+        if k not in seen:
+            seen.add(k)
+            behaviours.append(b)
+    behaviours = behaviours[: q(ck, 600, 6000)]
+    btable = write_cases(ck, behaviours, "msg-behaviours.ndjson")
+    ck.trace("replay", "msg-replay", ["-in", btable], "TraceMessage", "TraceMessage.cfg", [inv],
+             nontrivial=lambda e: e.get("ev") == "step" and e.get("res", {}).get("outcome") in ("new", "same"),
+             key=lambda e: json.dumps([e.get("op"), e.get("res"), e.get("dig")], sort_keys=True))
+    ck.replayed += len(behaviours)
+    if ck.violations:
+        return
     ck.trace("hist", "hist", ["-n", q(ck, 150, 400)], "TraceMessage", "TraceMessage.cfg", [inv],
              nontrivial=lambda e: e.get("ev") == "step" and e.get("res", {}).get("outcome") in ("new", "same"),
              key=lambda e: json.dumps([e.get("op"), e.get("res"), e.get("dig")], sort_keys=True))
